@@ -1,7 +1,7 @@
 (* ConcFullProofs.v — the full statement of C10 for the guarded discipline and for the
    discipline the code follows; its refutation for the unguarded discipline. *)
 From Coq Require Import String List NArith Bool Arith Lia.
-From J5V.model Require Import Conc ConcSites ConcRace ConcStatement ConcState.
+From J5V.model Require Import Conc ConcSites ConcCorr ConcRace ConcStatement ConcState.
 From J5V.gen Require ConcGen ConcStateGen.
 From J5V.proofs Require Import ConcProofs ConcInvProofs ConcTermProofs ConcMainProofs ConcRaceProofs.
 Import ListNotations.
@@ -38,3 +38,14 @@ Qed.
 Lemma no_other_state :
   census_ok = true /\ ConcGen.codec_entry_points = expected_codec_entry_points.
 Proof. exact (conj census_holds codec_entry_points_agree). Qed.
+
+(* exposed oneofs: what a caller sees is a view (ConcCorr.view: members regrouped under their
+   oneof, cut to the depth of observation) of the machine's result — a function of it, so
+   equal results give equal views *)
+Lemma guarded_results_view ex k g calls sched t : calls_ok calls ->
+  exists j, map (view ex k) (nth t (results (run Guarded k g calls sched)) []) =
+            map (fun n => view ex k (result_solo k g n)) (firstn j (nth t calls [])).
+Proof.
+  intros H. destruct (guarded_results k g calls sched t H) as (j & E). exists j.
+  rewrite E, map_map. reflexivity.
+Qed.
